@@ -828,6 +828,29 @@ def rule_rd_rfc(cx, rep, port):
         first_ok = (v1 == 0 and eq1) and ends_record(n1)
         cont_ok = (v2 == 1 and eq2) and ends_record(n2)
         rep.decide(first_ok, 'first line', n1, 'a first line with an even number of quotes is a complete record', 'the first-line test `{}` does not return lines with balanced quotes as complete records'.format(node_text(n1.test)))
+        # ... and on no other ground: every `return <first line>` is guarded by the line's own parity, its comment status or
+        # its absence - not by some remembered property of the buffer, which depends on how the input was cut into reads
+        first_vars = [dotted(n_.targets[0]) for n_ in fd.body if isinstance(n_, ast.Assign) and len(n_.targets) == 1 and isinstance(n_.value, ast.Call) and _is_read(n_.value)]
+        if first_vars:
+            fv = first_vars[0]
+            for r_ in walk_no_nested(fd):
+                if not (isinstance(r_, ast.Return) and r_.value is not None and dotted(r_.value) == fv):
+                    continue
+                ok_guard = False
+                tests_ = []
+                ch_, q_ = r_, getattr(r_, 'parent', None)
+                while q_ is not None and q_ is not fd:
+                    if isinstance(q_, ast.If) and ch_ in q_.body:
+                        tests_.append(q_.test)
+                        tt = node_text(q_.test, 300)
+                        if ('% 2' in tt and fv in tt) or 'startswith' in tt or (isinstance(q_.test, ast.Compare) and dotted(q_.test.left) == fv and is_none(q_.test.comparators[0])):
+                            ok_guard = True
+                    if isinstance(q_, (ast.For, ast.While)):
+                        ok_guard = True      # inside the continuation loop: judged by the continuation test
+                    ch_, q_ = q_, getattr(q_, 'parent', None)
+                if not ok_guard and tests_:
+                    rep.violated('first line grounds', r_, 'the first line is returned as a complete record when `{}`, which is neither its quote parity nor its comment status: whether a record that continues on the next line is torn apart depends on what happened to be buffered'.format(node_text(tests_[0], 60)))
+                    return
         rep.decide(cont_ok, 'continuation', n2, 'the record ends with the first continuation line that has an odd number of quotes', 'the continuation test `{}` does not end the record at the line that closes the open quote'.format(node_text(n2.test)))
         joins = [c for c in walk_no_nested(fd) if isinstance(c, ast.Call) and isinstance(c.func, ast.Attribute) and c.func.attr == 'join' and isinstance(c.func.value, ast.Constant)]
         rep.decide(joins and all(j.func.value.value == '\n' for j in joins), 'line joining', joins[0] if joins else fd, 'physical lines are joined with LF', 'physical lines of a multi-line record are joined with {!r} instead of LF'.format(joins[0].func.value.value if joins else None))
